@@ -79,8 +79,9 @@ class C17(Property):
           "idle, optional record stream, close/terminate/with-exit, second "
           "close, play after close; wait true/false) executed by the real "
           "lazy_io code under a seeded scheduler (random walk / sticky / "
-          "run-to-block / PCT, line pre-emption, fairness cap) with device "
-          "stall and late-start faults. distinct = distinct digest of the "
+          "run-to-block / PCT, line or bytecode-instruction pre-emption, "
+          "fairness cap) with device-stall, thread-stall and late-start "
+          "faults (stalls may continue while close() runs). distinct = distinct digest of the "
           "(thread, sync-or-device-point) sequence; non-trivial = at least "
           "one player and at least two context switches during the run")
   components = {
@@ -96,7 +97,7 @@ class C17(Property):
     "SimLock/SimEvent are semantically equivalent to threading.Lock/Event "
     "(set wakes all current waiters)",
     "pre-emption granularity: synchronisation/device points and source lines "
-    "of audiolazy/lazy_io.py",
+    "(in part of the runs: bytecode instructions) of audiolazy/lazy_io.py",
     "fairness imposed by a starvation cap; liveness bound generous, not tight",
     "failing sources/devices are outside the statement and not generated in "
     "deciding configurations",
